@@ -57,6 +57,9 @@ class Interp:
 
         _j.INTERP = self
         self.contracts = {}
+        self.contract_uses = {}
+        self.elem_of = {}
+        self.forall_established = []
 
     # ------------------------------------------------------------------ types
     def int_range(self, t):
@@ -88,6 +91,10 @@ class Interp:
 
     def usize_rng(self):
         return (0, (1 << self.ptr_bits) - 1)
+
+    def len_rng(self):
+        """Range of any slice / Vec / str length (language guarantee: at most isize::MAX bytes)."""
+        return (0, (1 << (self.ptr_bits - 1)) - 1)
 
     def max_len(self, elem_size=1):
         return ((1 << (self.ptr_bits - 1)) - 1) // max(1, elem_size)
@@ -182,7 +189,7 @@ class Interp:
         t = self.types[tid] if tid is not None else None
         if "str" in v:
             data = v["str"].encode("utf-8")
-            ln = self.const_sym(len(data), self.usize_rng(), S)
+            ln = self.const_sym(len(data), self.len_rng(), S)
             el = None
             if data:
                 s = self.st.get(("strbytes", key), (0, 255))
@@ -199,7 +206,7 @@ class Interp:
             data = None
             if all("int" in x for x in v["arr"]) and self.types[et]["k"] == "int" and self.types[et]["bits"] == 8:
                 data = bytes(x["int"] & 255 for x in v["arr"])
-            ln = self.const_sym(len(elems), self.usize_rng(), S)
+            ln = self.const_sym(len(elems), self.len_rng(), S)
             el = None
             if elems:
                 J = Joiner(S, S, ("constarr", key))
@@ -265,7 +272,7 @@ class Interp:
         if t["k"] == "slice":
             return self.top_seq("slice", t["elem"], S, key, depth)
         if t["k"] == "str":
-            ln = self.fresh(("toplen",) + key, self.usize_rng(), S, D.rng(0, self.max_len()))
+            ln = self.fresh(("toplen",) + key, self.len_rng(), S, D.rng(0, self.max_len()))
             el = Scalar(self.fresh(("topel",) + key, (0, 255), S))
             return Seq("str", ln, el, (), None, frozenset())
         return self.top(tid, S, key, depth)
@@ -290,9 +297,9 @@ class Interp:
 
     def top_seq(self, kind, et, S, key, depth, fixed=None):
         if fixed is not None:
-            ln = self.const_sym(fixed, self.usize_rng(), S)
+            ln = self.const_sym(fixed, self.len_rng(), S)
         else:
-            ln = self.fresh(("toplen",) + key, self.usize_rng(), S, D.rng(0, self.max_len(self.elem_size(et))))
+            ln = self.fresh(("toplen",) + key, self.len_rng(), S, D.rng(0, self.max_len(self.elem_size(et))))
         el = self.top(et, S, key + ("elem",), depth + 1)
         return Seq(kind, ln, el, (), None, frozenset())
 
@@ -303,7 +310,7 @@ class Interp:
             et = [a["t"] for a in t["args"] if isinstance(a, dict) and "t" in a][0]
             return self.top_seq("vec", et, S, key, depth)
         if p == "alloc::string::String":
-            ln = self.fresh(("toplen",) + key, self.usize_rng(), S, D.rng(0, self.max_len()))
+            ln = self.fresh(("toplen",) + key, self.len_rng(), S, D.rng(0, self.max_len()))
             return Seq("string", ln, Scalar(self.fresh(("topel",) + key, (0, 255), S)), (), None, frozenset())
         if p == "alloc::boxed::Box":
             return Opaque(tid)
@@ -337,8 +344,9 @@ class Interp:
                 S.define(p, D.join(S.ivof(a), S.ivof(b)))
         return out
 
-    def freshen(self, v, S, key, efacts=(), _path=()):
-        """Copy of a summary value with fresh symbols (one concrete element of a smashed sequence)."""
+    def freshen(self, v, S, key, efacts=(), _path=(), elem_of=None):
+        """Copy of a summary value with fresh symbols (one concrete element of a smashed sequence).
+        elem_of = (len symbol of the sequence, index symbol, block): remember which element this is."""
         m = {}
 
         def go(x, path):
@@ -359,6 +367,9 @@ class Interp:
             s = m.get(fpath)
             if s is not None:
                 S.add_fact(S.expand(lin.rename({("ELEM",): s})))
+        if elem_of is not None:
+            for fpath, s in m.items():
+                self.elem_of[s] = elem_of + (fpath,)
         return out
 
     # ------------------------------------------------------------------ memory
@@ -410,7 +421,7 @@ class Interp:
                     else:
                         v = self.join_vals(S, [v.elems[k] for k in ks], site + (n,))
                 elif isinstance(v, Seq):
-                    v = self.freshen(v.elem, S, site + (n,), v.efacts) if v.elem is not None else BOT
+                    v = self.freshen(v.elem, S, site + (n,), v.efacts, elem_of=(v.len, s, site[1] if len(site) > 1 else None)) if v.elem is not None else BOT
                 else:
                     return Opaque()
             elif tag == "ci":
@@ -431,7 +442,7 @@ class Interp:
                         l2 = S.term(v.len).addc(-(a + b))
                     else:
                         l2 = Lin.const(b - a)
-                    ns = self.fresh(("sublen", site, n), self.usize_rng(), S, S.eval(l2), l2)
+                    ns = self.fresh(("sublen", site, n), self.len_rng(), S, D.meet(S.eval(l2), D.rng(0, self.max_len())), l2)
                     v = Seq(v.kind, ns, v.elem, v.efacts, None, v.prov)
                 else:
                     return Opaque()
